@@ -103,7 +103,11 @@ impl Scenario for Reads {
                         (Some(a), Some(b)) => (a.slot.saturating_sub(3), b.slot + 3),
                         _ => (0, 10),
                     };
-                    let slot = lo + cx.ch.draw("fuzzy.slot", hi - lo + 1);
+                    // one in eight far beyond the tip
+                    let slot = match cx.ch.draw("fuzzy.far", 8) {
+                        7 => *cx.ch.pick("fuzzy.far.slot", &[u64::MAX, u64::MAX / 2, hi + 1_000_000, hi + 21_600]),
+                        _ => lo + cx.ch.draw("fuzzy.slot", hi - lo + 1),
+                    };
                     cx.tr.ev("from_fuzzy", &[slot]);
                     cx.st.inc("probe.fuzzy");
                     let want_from = imm.iter().position(|b| b.slot >= slot).unwrap_or(imm.len());
@@ -119,8 +123,14 @@ impl Scenario for Reads {
                                 let which = if slot < imm[0].slot { "fuzzy-before-first-block-rejected" } else { "fuzzy-rejected" };
                                 cx.report(Violation::new("suffix", format!("{}{q}", which), format!("fuzzy slot {slot} (first block at slot {}): {e}", imm[0].slot)))?;
                             } else {
-                                // nothing at or after that slot: an error is as good as an empty suffix
+                                // Nothing at or after that slot. The suffix from the first block at or after it is
+                                // the empty one, and a database that holds blocks answers `Ok(empty)`; with no
+                                // immutable block at all (or the known empty-chunk defect in play) an error is taken
+                                // as equivalent.
                                 cx.st.inc("probe.fuzzy_beyond_tip_error");
+                                if !imm.is_empty() && q.is_empty() {
+                                    cx.report(Violation::new("suffix", "fuzzy-beyond-tip-rejected", format!("fuzzy slot {slot} beyond the last immutable block (slot {}): {e} instead of the empty suffix", imm.last().unwrap().slot)))?;
+                                }
                             }
                         }
                     }
